@@ -13,7 +13,7 @@
 //@property C16
 // "return exactly what the obvious loop returns" includes leaving a non-const lvalue argument unchanged: the algorithm
 // harnesses of C05 (instrumented elements, lvalue/rvalue variants) are decided again for C16
-//@import C05_seq.cpp only=^h_algorithm_
+//@import C05_seq.cpp only=^h_(algorithm|container)_
 #include "verif_api.h"
 #include <fcppt/loop.hpp>
 #include <fcppt/make_int_range_count.hpp>
@@ -228,6 +228,23 @@ void maps()
   }
   verif_reach("maps-end");
 }
+
+// ---- repeat with signed counts: "calls the function count times" - never for a count <= 0, whatever the count type
+template <typename T>
+void repeat_signed()
+{
+  T const count{static_cast<T>(verif_u64("count"))};
+  verif_assume(count <= 3);
+  unsigned calls{0};
+  fcppt::algorithm::repeat(count, [&calls] { ++calls; });
+  verif_assert(calls == (count > 0 ? static_cast<unsigned>(count) : 0U), "repeat(count, f): f is called count times, not at all for count <= 0");
+  verif_reach("repeat-signed-end");
+}
+VERIF_HARNESS(h_repeat_i8) { repeat_signed<signed char>(); }
+VERIF_HARNESS(h_repeat_i16) { repeat_signed<short>(); }
+VERIF_HARNESS(h_repeat_i32) { repeat_signed<int>(); }
+VERIF_HARNESS(h_repeat_i64) { repeat_signed<long>(); }
+//@harness h_repeat_{T} for T in i8,i16,i32,i64 tier=quick loop=8
 
 // ---- searches with a predicate: visit order and early stop
 template <typename C>
